@@ -12,6 +12,7 @@ import (
 	"verif/internal/chk"
 	"verif/internal/dt"
 	"verif/internal/impl"
+	"verif/internal/model"
 	"verif/internal/ref"
 	"verif/internal/run"
 )
@@ -214,20 +215,57 @@ var c19KindNames = []string{"JSIGHT", "INFO", "Title", "Version", "Description",
 	"Body", "Request", "HTTP-response-code", "Path", "Headers", "Query", "TYPE", "ENUM", "MACRO", "PASTE", "INCLUDE", "Protocol", "Method", "Params",
 	"Result", "TAG", "Tags", "OperationId"}
 
+type c19Params struct {
+	Triples bool `json:"triples"` // also all sets of size 3
+	Models  int  `json:"models"`  // also every generated model within this node budget (sets of size <= 1 only)
+}
+
 func workC19(w *run.W) {
+	var p c19Params
+	json.Unmarshal(w.Params, &p)
 	dir := workerDir(w)
 	defer os.RemoveAll(dir)
 	projects := c19Projects()
+	nHand := len(projects)
+	if p.Models > 0 {
+		mi := 0
+		model.EnumDocs(model.DefaultPalette(), p.Models, 0, func(d *model.Doc) {
+			mi++
+			l := canonGlobal.Layout()
+			l.Only = map[string]bool{}
+			l.Reset()
+			projects = append(projects, c19Project{Name: fmt.Sprintf("model%d/direct", mi), P: project(dt.Render(d.ToTree(&l), &l))})
+		})
+	}
 	var sets [][]string
 	sets = append(sets, nil)
-	for i, a := range c19KindNames {
+	for _, a := range c19KindNames {
 		sets = append(sets, []string{a})
-		for _, b := range c19KindNames[i+1:] {
-			sets = append(sets, []string{a, b})
+	}
+	nSmall := len(sets)
+	for i, a := range c19KindNames {
+		for j, b := range c19KindNames[i+1:] {
+			sets = append(sets, []string{a, b}, []string{b, a})
+			if p.Triples {
+				for _, c := range c19KindNames[i+1+j+1:] {
+					sets = append(sets, []string{a, b, c})
+				}
+			}
 		}
 	}
+	// everything banned, and everything but one kind
+	sets = append(sets, append([]string{}, c19KindNames...))
+	for i := range c19KindNames {
+		var s []string
+		s = append(s, c19KindNames[:i]...)
+		s = append(s, c19KindNames[i+1:]...)
+		sets = append(sets, s)
+	}
+	if w.Shard == 0 {
+		w.Count("banned_sets", int64(len(sets)))
+	}
 	var idx int64
-	for _, pr := range projects {
+	for pi, pr := range projects {
 		base := pr.P.Build(dir)
 		if base.Panic != nil {
 			continue
@@ -242,7 +280,10 @@ func workC19(w *run.W) {
 		if w.Shard == 0 {
 			w.Count("projects", 1)
 		}
-		for _, set := range sets {
+		for si, set := range sets {
+			if pi >= nHand && si >= nSmall {
+				break // generated models: the empty set and the 31 singletons
+			}
 			idx++
 			if !w.Mine(idx) || !w.Begin(fmt.Sprintf("%s/ban%v", pr.Name, set)) {
 				continue
@@ -380,12 +421,12 @@ func placementOf(name string) string {
 }
 
 func runC19(c *chk.Ctx) {
-	r := c.Pool.Run("c19", map[string]any{})
+	r := c.Pool.Run("c19", c19Params{Triples: !c.Quick(), Models: chk.Pick(c, 2, 3)})
 	c.Merge(r, "configurations")
 	r2 := c.Pool.Run("c19history", map[string]any{})
 	c.Merge(r2, "history_builds")
-	c.Cov["banned_sets"] = 1 + 31 + 465
-	c.Cov["rule"] = "all banned sets of size 0, 1, 2 over the 31 directive kinds (497) x a project set holding, for every kind, a minimal valid project with the kind written directly / inside an INCLUDEd file / inside a pasted MACRO body / inside an unpasted MACRO body, plus all-kinds projects, a JSIGHT-only project and a malformed instance of every kind (the ban must win over any other complaint about the directive). Histories: for every ordered pair of kinds (X, Y) the option values ban(X), ban(Y) are created once and reused: build with both, then with each alone. A banned kind occurs => rejected with 'the directive is not allowed (K)' located on a directive of kind K; none occurs => the observation (catalog bytes or error tuple) equals the build without the option. non-trivial = distinct (project, banned set)"
+	c.Cov["banned_sets"] = c.Counts()["banned_sets"]
+	c.Cov["rule"] = "all banned sets of size 0, 1, 2 (both orders; thorough: and 3) over the 31 directive kinds, the full set and the 31 sets that leave one kind out x a project set holding, for every kind, a minimal valid project with the kind written directly / inside an INCLUDEd file / inside a pasted MACRO body / inside an unpasted MACRO body, plus all-kinds projects, a JSIGHT-only project and a malformed instance of every kind (the ban must win over any other complaint about the directive); every generated model within the node budget with the empty set and the 31 singletons. Histories: for every ordered pair of kinds (X, Y) the option values ban(X), ban(Y) are created once and reused: build with both, then with each alone. A banned kind occurs => rejected with 'the directive is not allowed (K)' located on a directive of kind K; none occurs => the observation (catalog bytes or error tuple) equals the build without the option. non-trivial = distinct (project, banned set)"
 	c.Cov["exhaustive"] = true
 	_ = json.Marshal
 }
